@@ -139,6 +139,8 @@ def cmp_lists(got, exp, ordered):
 
 
 def short(x, n=400):
+    if isinstance(x, list) and len(x) > 8:
+        return f"{repr(x[:8])[:n]}... ({len(x)} elements)"
     s = repr(x)
     return s if len(s) <= n else s[:n] + "..."
 
